@@ -11,7 +11,7 @@ SPEC = {
                   ("SqliteMap.read_properties(descriptor semantics)", 'readprops', r'.'),
                   ("BaseMap.use_latlon setter", 'setter', r'.')],
     'bounded': [
-        ('build-histories-then-reopen-cycles', map_suites.case_C18, 300, 6000,
+        ('build-histories-then-reopen-cycles', map_suites.case_C18, 500, 20000,
          "graphs of 3-6 integer-labelled nodes at unit / 1e7 / degree scale, both metric flags, default or custom CRS settings, four build histories, "
          "1-3 reopen cycles; non-trivial = deferred commit/index step or use_latlon=False", "graphs <= 6 nodes, <= 3 cycles")],
     'extra_builders': {
